@@ -100,6 +100,8 @@ class Ev:
     extra: dict = field(default_factory=dict)
     fn: str = ""
     depth: int = 0
+    cls: str | None = None  # runtime class of `self` in the frame the event comes from
+    obj: str = "self"  # which object that `self` is, as a path from the entry function's self
 
     @property
     def line(self) -> int:
@@ -151,7 +153,7 @@ class Path:
 
 
 class St:
-    __slots__ = ("env", "val", "evs", "selfcls", "fn", "depth", "exc", "frames", "module", "last_func")
+    __slots__ = ("env", "val", "evs", "selfcls", "fn", "depth", "exc", "frames", "module", "last_func", "selfpath")
 
     def __init__(self):
         self.env: dict[str, ast.expr] = {}
@@ -164,6 +166,7 @@ class St:
         self.frames: tuple = ()  # qualnames on the inline stack
         self.module = None
         self.last_func = ""
+        self.selfpath = "self"  # how the frame's `self` is reached from the entry function's self (display / identity)
 
     def fork(self) -> "St":
         s = St()
@@ -177,6 +180,7 @@ class St:
         s.frames = self.frames
         s.module = self.module
         s.last_func = self.last_func
+        s.selfpath = self.selfpath
         return s
 
 
@@ -366,7 +370,7 @@ class Enumerator:
         st = St()
         st.selfcls = selfcls or (fi.cls.name if fi.cls else None)
         st.fn = fi.qualname
-        st.frames = (fi.qualname,)
+        st.frames = (f"{fi.qualname}@self",)
         st.module = fi.module
         for a in fi.node.args.posonlyargs + fi.node.args.args + fi.node.args.kwonlyargs:
             st.env[a.arg] = ast.Name(a.arg, ast.Load())
@@ -379,7 +383,7 @@ class Enumerator:
         st = St()
         st.selfcls = selfcls or (fi.cls.name if fi.cls else None)
         st.fn = fi.qualname
-        st.frames = (fi.qualname,)
+        st.frames = (f"{fi.qualname}@self",)
         st.module = fi.module
         if bind:
             st.env.update(bind)
@@ -402,7 +406,7 @@ class Enumerator:
         return states
 
     def emit(self, st: St, kind: str, text: str, node: ast.AST | None = None, raw: str = "", **extra) -> Ev:
-        e = Ev(kind, text, node, raw or (render(node) if node is not None else ""), extra, st.fn, st.depth)
+        e = Ev(kind, text, node, raw or (render(node) if node is not None else ""), extra, st.fn, st.depth, st.selfcls, st.selfpath)
         st.evs.append(e)
         return e
 
@@ -972,8 +976,15 @@ class Enumerator:
             got = self.cfg.inline(call, ftext, recv_cls, st)
             if got:
                 target = (*got, False)
-        if target and st.depth < self.cfg.max_inline_depth and target[0].qualname not in st.frames:
-            return self._inline(orig, call, target, st)
+        if target and st.depth < self.cfg.max_inline_depth:
+            # recursion guard per (method, object): the same method on another object is a different activation
+            if target[2] is None:
+                tgt_path = st.selfpath
+            else:
+                rt = render(target[2])
+                tgt_path = rt if st.selfpath == "self" else (st.selfpath + rt[4:] if rt.startswith("self") else rt)
+            if f"{target[0].qualname}@{tgt_path}" not in st.frames:
+                return self._inline(orig, call, target, st)
         # lock operations spelled as calls
         if isinstance(call.func, ast.Attribute) and call.func.attr in ("acquire", "release", "wait", "notify", "notify_all"):
             recv = render(call.func.value)
@@ -1007,6 +1018,10 @@ class Enumerator:
         fi, selfcls, selfterm, is_closure = target
         fd = fi.node
         saved_env, saved_fn, saved_cls, saved_depth, saved_frames, saved_mod = st.env, st.fn, st.selfcls, st.depth, st.frames, st.module
+        saved_path = st.selfpath
+        if selfterm is not None:
+            rt = render(selfterm)
+            st.selfpath = rt if saved_path == "self" else (saved_path + rt[4:] if rt.startswith("self") else rt)
         env: dict[str, ast.expr] = {}
         if is_closure:
             env = dict(saved_env)  # closures see the enclosing frame
@@ -1025,7 +1040,9 @@ class Enumerator:
         if is_method and params:
             first = params[0]
             params = params[1:]
-            env[first] = selfterm if selfterm is not None else ast.Name("self", ast.Load())
+            # the callee's `self` is always spelled `self` inside its frame (its class is st.selfcls, its identity st.selfpath);
+            # terms that flow back to the caller are re-rooted on the receiver term below
+            env[first] = ast.Name("self", ast.Load())
         defaults = fd.args.defaults
         dmap = {}
         allpos = [a.arg for a in fd.args.posonlyargs + fd.args.args]
@@ -1046,7 +1063,7 @@ class Enumerator:
                 bound[p] = dmap[p] if p in dmap else ast.Name(p, ast.Load())
         env.update(bound)
         self.emit(st, "inline", fi.qualname, orig, func=render(call.func), cls=selfcls)
-        st.env, st.fn, st.selfcls, st.depth, st.frames, st.module = env, fi.qualname, selfcls, st.depth + 1, st.frames + (fi.qualname,), fi.module
+        st.env, st.fn, st.selfcls, st.depth, st.frames, st.module = env, fi.qualname, selfcls, st.depth + 1, st.frames + (f"{fi.qualname}@{st.selfpath}",), fi.module
         res = self.exec_block(fd.body, st)
         out = []
         for s2, o in res:
@@ -1064,9 +1081,13 @@ class Enumerator:
                     if k.startswith("self."):
                         new_env[k] = v
             s2.env, s2.fn, s2.selfcls, s2.depth, s2.frames, s2.module = new_env, saved_fn, saved_cls, saved_depth, saved_frames, saved_mod
+            s2.selfpath = saved_path
             self.emit(s2, "inline_end", fi.qualname, orig)
             if o[0] == "return":
-                out.append((s2, o[1], None))
+                rt = o[1]
+                if selfterm is not None and isinstance(rt, ast.AST):
+                    rt = rewrite(rt, lambda n: selfterm if isinstance(n, ast.Name) and n.id == "self" else None)
+                out.append((s2, rt, None))
             elif o is NORMAL:
                 out.append((s2, ast.Constant(None), None))
             elif o[0] == "raise":
